@@ -210,7 +210,10 @@ class Pipeline:
                 for fname, body in q.c_override.items():
                     m = re.search(r'^([^\n;{}]*\b%s\([^;{}]*\))\n\{\n.*?^\}\n' % re.escape(fname), src, re.M | re.S)
                     if not m: raise BuildError('c_override: function %s not found in module.c' % fname)
-                    src = src[:m.start()] + m.group(1) + '\n{\n' + body + '\n}\n' + src[m.end():]
+                    repl = m.group(1) + '\n{\n' + body + '\n}\n'
+                    pad = m.group(0).count('\n') - repl.count('\n')      # keep line numbers (nondet sites of the trace extraction) stable
+                    if pad < 0: raise BuildError('c_override: model of %s is longer than the body it replaces' % fname)
+                    src = src[:m.start()] + repl[:-2] + '\n' * pad + '}\n' + src[m.end():]
                 open(os.path.join(d, 'module.c'), 'w').write(src)
             meta = json.load(open(os.path.join(d, 'module.c.meta.json')))
             # vtables the harness takes a vptr from (VT_DECLARE_VTABLE) must be defined by one of the linked TUs
